@@ -264,6 +264,11 @@ func genPool(r *lib.Rng, st map[string]int) *c10Pool {
 		return p
 	}
 	if r.Chance(1, 8) {
+		genInvalid(r, p, st)
+		finishPool(r, p)
+		return p
+	}
+	if r.Chance(1, 8) {
 		genShared(r, p, st)
 		parent := p.Seq
 		finishPool(r, p)
@@ -429,6 +434,127 @@ func genShared(r *lib.Rng, p *c10Pool, st map[string]int) {
 	p.Seq = parent
 	p.Class = "shared" + map[geom.CoordinatesType]string{geom.DimXY: "", geom.DimXYZ: "Z"}[ct]
 	st["class_"+p.Class]++
+}
+
+// invalidShapes: one generator per validation rule; every shape violates (mainly) that one rule.
+// dx,dy translate the shape; ring starts and orientations are random (ringWKT).
+var invalidNames = []string{"ring_not_closed", "ring_not_simple", "ring_too_short", "nested_holes", "hole_outside",
+	"hole_crosses_shell", "multi_touch", "disconnected_interior_2cycles", "disconnected_interior_long_cycle",
+	"multipolygon_overlap", "multipolygon_nested", "multipolygon_shared_edge", "linestring_degenerate",
+	"non_finite", "collection_with_invalid_member", "hole_shares_edge_with_shell"}
+
+func invalidShape(r *lib.Rng, kind int) (geom.Geometry, bool) {
+	no := func(xy) string { return "" }
+	dx, dy := r.Intn(3), r.Intn(3)
+	sh := func(vs []xy) []xy {
+		out := make([]xy, len(vs))
+		for i, v := range vs {
+			out[i] = xy{v.x + dx, v.y + dy}
+		}
+		return out
+	}
+	sq := func(x0, y0 int) []xy { return sh(rectVerts(x0, y0, x0+1, y0+1)) }
+	ring := func(vs []xy) string { return ringWKT(r, vs, no) }
+	var w string
+	switch kind {
+	case 0:
+		w = fmt.Sprintf("POLYGON((%d %d,%d %d,%d %d,%d %d))", dx, dy, dx+4, dy, dx+4, dy+4, dx, dy+4)
+	case 1:
+		w = "POLYGON(" + ring(sh([]xy{{0, 0}, {4, 4}, {4, 0}, {0, 4}})) + ")"
+	case 2:
+		w = fmt.Sprintf("POLYGON((%d %d,%d %d,%d %d))", dx, dy, dx+1, dy+1, dx, dy)
+	case 3:
+		w = "POLYGON(" + ring(sh(rectVerts(0, 0, 7, 7))) + "," + ring(sh(rectVerts(1, 1, 6, 6))) + "," + ring(sh(rectVerts(2, 2, 4, 4))) + ")"
+	case 4:
+		w = "POLYGON(" + ring(sh(rectVerts(0, 0, 3, 3))) + "," + ring(sh(rectVerts(5, 5, 6, 6))) + ")"
+	case 5:
+		w = "POLYGON(" + ring(sh(rectVerts(0, 0, 4, 4))) + "," + ring(sh(rectVerts(3, 1, 6, 2))) + ")"
+	case 6:
+		w = "POLYGON(" + ring(sh(rectVerts(0, 0, 6, 6))) + "," + ring(sh([]xy{{0, 2}, {3, 1}, {0, 4}, {2, 3}})) + ")"
+	case 7:
+		// two separate closed chains of four holes touching at corners, each enclosing one cell
+		w = "POLYGON(" + ring(sh(rectVerts(0, 0, 9, 5)))
+		for _, ox := range []int{0, 4} {
+			for _, c := range [][2]int{{1, 2}, {2, 3}, {3, 2}, {2, 1}} {
+				w += "," + ring(sq(c[0]+ox, c[1]))
+			}
+		}
+		w += ")"
+	case 8:
+		// one chain of eight holes around a 2x2 block, plus a chain of four: several distinct cycles
+		w = "POLYGON(" + ring(sh(rectVerts(0, 0, 10, 7)))
+		for _, c := range [][2]int{{1, 3}, {2, 4}, {3, 5}, {4, 4}, {5, 3}, {4, 2}, {3, 1}, {2, 2}} {
+			w += "," + ring(sq(c[0], c[1]))
+		}
+		for _, c := range [][2]int{{7, 2}, {8, 3}, {9, 2}, {8, 1}} {
+			w += "," + ring(sq(c[0]-1, c[1]))
+		}
+		w += ")"
+	case 9:
+		w = "MULTIPOLYGON((" + ring(sh(rectVerts(0, 0, 4, 4))) + "),(" + ring(sh(rectVerts(2, 2, 6, 6))) + "))"
+	case 10:
+		w = "MULTIPOLYGON((" + ring(sh(rectVerts(0, 0, 6, 6))) + "),(" + ring(sh(rectVerts(2, 2, 3, 3))) + "),(" + ring(sh(rectVerts(4, 4, 5, 5))) + "))"
+	case 11:
+		w = "MULTIPOLYGON((" + ring(sh(rectVerts(0, 0, 2, 2))) + "),(" + ring(sh(rectVerts(2, 0, 4, 2))) + "),(" + ring(sh(rectVerts(2, 2, 4, 4))) + "))"
+	case 12:
+		w = fmt.Sprintf("MULTILINESTRING((%d %d,%d %d),(0 0,1 1),(%d %d,%d %d))", dx, dy, dx, dy, dx+1, dy, dx+1, dy)
+	case 13:
+		vals := []float64{math.NaN(), math.Inf(1), math.Inf(-1)}
+		v := vals[r.Intn(3)]
+		switch r.Intn(3) {
+		case 0:
+			return geom.NewPointXY(v, float64(dy)).AsGeometry(), true
+		case 1:
+			return geom.NewLineStringXY(0, 0, float64(dx), v, 3, 3).AsGeometry(), true
+		default:
+			return geom.NewPolygonXY([]float64{0, 0, 4, 0, 4, v, 0, 4, 0, 0}).AsGeometry(), true
+		}
+	case 15:
+		// holes sharing an edge with the shell and touching each other: the overlay extracts several
+		// counter-clockwise rings for one polygon from such input
+		w = "POLYGON(" + ring(sh(rectVerts(0, 0, 10, 6))) + "," + ring(sq(1, 3)) + "," + ring(sq(2, 4)) + "," + ring(sq(3, 5)) + "," + ring(sq(4, 4))
+		if r.Bool() {
+			w += "," + ring(sq(6, 5)) + "," + ring(sq(7, 4))
+		}
+		w += ")"
+	default:
+		a, ok1 := invalidShape(r, r.Intn(12))
+		b, ok2 := invalidShape(r, r.Intn(12))
+		if !ok1 || !ok2 {
+			return geom.Geometry{}, false
+		}
+		return geom.NewGeometryCollection([]geom.Geometry{geom.NewPointXY(1, 1).AsGeometry(), a, b}).AsGeometry(), true
+	}
+	g, err := geom.UnmarshalWKT(w, geom.NoValidate{})
+	return g, err == nil
+}
+
+// genInvalid: operands that FAIL validation, one rule each (plus one valid operand), for the
+// clause "the same call returns ... the same error": Validate, the validating decoders, the set
+// operations, Relate and Simplify on them must return the identical error text every time, in this
+// process and in another one.
+func genInvalid(r *lib.Rng, p *c10Pool, st map[string]int) {
+	for len(p.G) < 3 {
+		k := r.Intn(len(invalidNames))
+		if r.Chance(1, 4) {
+			k = []int{7, 8, 15}[r.Intn(3)] // the map-heavy rules (touch graph of the rings, several CCW rings) more often
+		}
+		g, ok := invalidShape(r, k)
+		if !ok {
+			st["invalid_shape_rejected_by_parser"]++
+			continue
+		}
+		p.G = append(p.G, g)
+		p.Kinds = append(p.Kinds, "invalid:"+invalidNames[k])
+		st["invalid_"+invalidNames[k]]++
+	}
+	w, kind := genWKT(r, "", func(xy) string { return "" }, 1)
+	if g, err := geom.UnmarshalWKT(w); err == nil {
+		p.G = append(p.G, g)
+		p.Kinds = append(p.Kinds, kind)
+	}
+	p.Class = "invalid"
+	st["class_invalid"]++
 }
 
 func finishPool(r *lib.Rng, p *c10Pool) {
